@@ -458,7 +458,7 @@ class Exec:
             return ASet(v) if m.vkind == 'set' else SymV(m.vkind, v)
         if k == 'cindex':
             b = self.read(st, fid, p[1])
-            if isinstance(b, Agg) and b.kind == 'array':
+            if isinstance(b, Agg) and (b.kind == 'array' or b.name == '~vec'):
                 return b.fields[-p[2]] if p[3] else b.fields[p[2]]
             raise NotEncoded(f'const index into {b!r}')
         if k == 'index':
@@ -608,6 +608,12 @@ class Exec:
                     hdr = self.impl_header(mi.group(1), int(mi.group(2))) if mi else None
                     if hdr and base_type(hdr[1]) == ty:
                         keep.append(k)
+                cands = keep or cands
+            if len(cands) > 1 and st is not None and st.stack:
+                # a promoted constant belongs to the function being executed: same `<impl at file:line:col>` segment / same function name
+                cur = st.stack[-1].func.name
+                mi = re.search(r'<impl at [^>]*>', cur)
+                keep = [k for k in cands if (mi and mi.group(0) in k) or k.startswith(cur + '::promoted[')]
                 cands = keep or cands
             if len(cands) != 1:
                 raise NotEncoded(f'promoted constant {tok}: {len(cands)} candidates')
@@ -872,7 +878,7 @@ class Exec:
                 while isinstance(v, Ref) and n < 6:
                     v = self.read(st, v.fid, v.place)
                     n += 1
-                if isinstance(v, Agg) and v.kind == 'array':
+                if isinstance(v, Agg) and (v.kind == 'array' or v.name == '~vec'):
                     return self.const_int(len(v.fields), 'usize')
                 raise NotEncoded(f'PtrMetadata of {r!r}')
             return self.unop(rv[1], self.operand(st, fid, rv[2]))
